@@ -339,3 +339,268 @@ theorem walk_row (rec : SamRec) (L : Nat) (hq : qSpan samNoIns rec.cigar ≤ rec
   rfl
 
 end Gofasta.Lemmas
+
+namespace Gofasta.Lemmas
+open Gofasta Model Spec Gofasta.Props.C01
+
+/-- the per-column verdict of the specification for a query with a single record -/
+theorem flatCol_single (rec : SamRec) (i : Nat) :
+    flatCol [rec] i = match covAt rec i with
+      | some (.base b) => some b
+      | some .del => some dash
+      | none => none := by
+  unfold flatCol
+  cases h : covAt rec i with
+  | none => simp [h]
+  | some c =>
+    cases c with
+    | base b => simp [h, List.eraseDups, List.eraseDupsBy, List.eraseDupsBy.loop]
+    | del => simp [h, List.eraseDups, List.eraseDupsBy, List.eraseDupsBy.loop]
+
+/-- what the specification writes for a column before the flank rule, as a byte ('*' = not covered) -/
+def colByte (c : Option Nat) : Nat := match c with | some b => b | none => star
+
+/-- the record never writes a no-coverage mark for an aligned base -/
+def NoStarBases (rec : SamRec) : Prop := ∀ b ∈ rec.seq, b ≠ star
+
+theorem covByte_eq_colByte (rec : SamRec) (i : Nat) : covByte (covAt rec i) = colByte (flatCol [rec] i) := by
+  rw [flatCol_single]
+  cases h : covAt rec i with
+  | none => rfl
+  | some c => cases c <;> rfl
+
+theorem mem_covList_base (seq : List Nat) : ∀ (cigar : List (Nat × Nat)) (q r : Nat) (e : Nat × Cov) (b : Nat),
+    q + qSpan samNoIns cigar ≤ seq.length → e ∈ covList seq cigar q r → e.2 = .base b → b ∈ seq := by
+  intro cigar
+  induction cigar with
+  | nil => intro q r e b _ he; simp [covList] at he
+  | cons c rest ih =>
+    intro q r e b hq he hb
+    obtain ⟨op, len⟩ := c
+    simp only [covList] at he
+    simp only [qSpan] at hq
+    rcases opEntry_noins_cases op with ⟨hop, hen⟩ | ⟨hop, hen⟩ | ⟨hop, hen⟩ | ⟨hop, hen⟩ | ⟨hop, hen⟩ | ⟨hop, hen⟩
+    · have hal : isAligned op = true := by rcases hop with rfl | rfl | rfl <;> rfl
+      simp only [hal, if_true] at he
+      simp only [hen] at hq
+      rcases List.mem_append.1 he with h | h
+      · simp only [List.mem_map, List.mem_range] at h
+        obtain ⟨k, hk, rfl⟩ := h
+        simp only [Cov.base.injEq] at hb
+        subst hb
+        have hlt : q + k < seq.length := by omega
+        rw [List.getD_eq_getElem?_getD, List.getElem?_eq_getElem hlt]
+        exact List.getElem_mem hlt
+      · exact ih _ _ e b (by omega) h hb
+    · subst hop
+      have hal : isAligned 2 = false := rfl
+      simp only [hal, Bool.false_eq_true, if_false, beq_self_eq_true, if_true] at he
+      simp only [hen] at hq
+      rcases List.mem_append.1 he with h | h
+      · simp only [List.mem_map, List.mem_range] at h
+        obtain ⟨k, hk, rfl⟩ := h
+        cases hb
+      · exact ih _ _ e b (by omega) h hb
+    · subst hop
+      have hal : isAligned 3 = false := rfl
+      have h2 : ((3 : Nat) == 2) = false := rfl
+      simp only [hal, h2, Bool.false_eq_true, if_false, beq_self_eq_true, if_true] at he
+      simp only [hen] at hq
+      exact ih _ _ e b (by omega) he hb
+    · have hal : isAligned op = false := by rcases hop with rfl | rfl <;> rfl
+      have h2 : (op == 2) = false := by rcases hop with rfl | rfl <;> rfl
+      have h3 : (op == 3) = false := by rcases hop with rfl | rfl <;> rfl
+      have hq1 : isQueryOnly op = true := by rcases hop with rfl | rfl <;> rfl
+      simp only [hal, h2, h3, hq1, Bool.false_eq_true, if_false, if_true] at he
+      simp only [hen] at hq
+      exact ih _ _ e b (by omega) he hb
+    · have hal : isAligned op = false := by rcases hop with rfl | rfl <;> rfl
+      have h2 : (op == 2) = false := by rcases hop with rfl | rfl <;> rfl
+      have h3 : (op == 3) = false := by rcases hop with rfl | rfl <;> rfl
+      have hq1 : isQueryOnly op = false := by rcases hop with rfl | rfl <;> rfl
+      simp only [hal, h2, h3, hq1, Bool.false_eq_true, if_false] at he
+      simp only [hen] at hq
+      exact ih _ _ e b (by omega) he hb
+    · have hal : isAligned op = false := by simp [isAligned]; omega
+      have h2 : (op == 2) = false := by simp; omega
+      have h3 : (op == 3) = false := by simp; omega
+      have hq1 : isQueryOnly op = false := by simp [isQueryOnly]; omega
+      simp only [hal, h2, h3, hq1, Bool.false_eq_true, if_false] at he
+      simp only [hen] at hq
+      exact ih _ _ e b (by omega) he hb
+
+/-- a covered column is never written as no-coverage -/
+theorem colByte_star_iff (rec : SamRec) (i : Nat) (hq : qSpan samNoIns rec.cigar ≤ rec.seq.length) (hns : NoStarBases rec) :
+    colByte (flatCol [rec] i) = star ↔ flatCol [rec] i = none := by
+  rw [flatCol_single]
+  cases h : covAt rec i with
+  | none => simp [colByte]
+  | some c =>
+    cases c with
+    | del => simp [colByte, dash, star]
+    | base b =>
+      simp only [colByte]
+      constructor
+      · intro hb
+        exfalso
+        unfold covAt at h
+        simp only [Option.map_eq_some_iff] at h
+        obtain ⟨e, hf, he2⟩ := h
+        have hm := List.mem_of_find?_eq_some hf
+        exact hns b (mem_covList_base rec.seq rec.cigar 0 rec.pos e b (by omega) hm he2) hb
+      · intro hn; cases hn
+
+end Gofasta.Lemmas
+
+namespace Gofasta.Lemmas
+open Gofasta Model Spec Gofasta.Props.C01
+
+def isBaseCol (c : Option Nat) : Bool := match c with | some b => isLetter b | none => false
+
+theorem isLetter_colByte (c : Option Nat) : isLetter (colByte c) = isBaseCol c := by
+  cases c with
+  | none => decide
+  | some b => rfl
+
+theorem find?_congr' {α : Type} (p q : α → Bool) : ∀ (l : List α), (∀ x ∈ l, p x = q x) → l.find? p = l.find? q := by
+  intro l
+  induction l with
+  | nil => intro _; rfl
+  | cons a t ih =>
+    intro h
+    simp only [List.find?_cons, h a (List.mem_cons_self)]
+    rw [ih (fun x hx => h x (List.mem_cons_of_mem _ hx))]
+
+theorem getD_map_range {β : Type} (f : Nat → β) (L i : Nat) (d : β) (hi : i < L) : ((List.range L).map f).getD i d = f i := by
+  simp [List.getD_eq_getElem?_getD, hi]
+
+/-- the row the walk and the flattening leave behind, written with '*' for no coverage -/
+def starRow (block : List SamRec) (L : Nat) : List Nat := (List.range L).map fun i => colByte (flatCol block i)
+
+theorem starRow_length (block : List SamRec) (L : Nat) : (starRow block L).length = L := by simp [starRow]
+
+theorem firstLetter_starRow (block : List SamRec) (L : Nat) :
+    firstLetterIdx (starRow block L) =
+      (List.range L).find? fun i => isBaseCol (((List.range L).map (flatCol block)).getD i none) := by
+  unfold firstLetterIdx
+  rw [starRow_length]
+  apply find?_congr'
+  intro i hi
+  have hi' : i < L := List.mem_range.1 hi
+  rw [getD_map_range _ _ _ _ hi', starRow, getD_map_range _ _ _ _ hi', isLetter_colByte]
+
+theorem lastLetter_starRow (block : List SamRec) (L : Nat) :
+    lastLetterIdx (starRow block L) =
+      (List.range L).reverse.find? fun i => isBaseCol (((List.range L).map (flatCol block)).getD i none) := by
+  unfold lastLetterIdx
+  rw [starRow_length]
+  apply find?_congr'
+  intro i hi
+  have hi' : i < L := List.mem_range.1 (List.mem_reverse.1 hi)
+  rw [getD_map_range _ _ _ _ hi', starRow, getD_map_range _ _ _ _ hi', isLetter_colByte]
+
+def flankCols (cols : List (Option Nat)) (L : Nat) (pad : Bool) (first last : Option Nat) : List Nat :=
+  (cols.zip (List.range L)).map fun (c, i) =>
+    match c with
+    | some b => b
+    | none =>
+      if pad then letN else
+      match first, last with
+      | some f, some l => if f < i ∧ i < l then letN else dash
+      | _, _ => dash
+
+theorem specTomaRow_eq (block : List SamRec) (L : Nat) (pad : Bool) :
+    specTomaRow block L pad = flankCols ((List.range L).map (flatCol block)) L pad
+      ((List.range L).find? fun i => isBaseCol (((List.range L).map (flatCol block)).getD i none))
+      ((List.range L).reverse.find? fun i => isBaseCol (((List.range L).map (flatCol block)).getD i none)) := rfl
+
+/-- **C01.pad_rule** — under --pad every position nothing covers is 'N' -/
+theorem swapNs_starRow (block : List SamRec) (L : Nat) (hstar : ∀ i b, flatCol block i = some b → b ≠ star) :
+    swapInNs (starRow block L) = specTomaRow block L true := by
+  apply List.ext_getElem
+  · simp [swapInNs, starRow, specTomaRow]
+  · intro n h1 h2
+    have hn : n < L := by simpa [swapInNs, starRow] using h1
+    simp only [swapInNs, starRow, specTomaRow, List.getElem_map, List.getElem_zip, List.getElem_range]
+    cases hc : flatCol block n with
+    | none => simp [colByte]
+    | some b => simp [colByte, hstar n b hc]
+
+/-- **C01.flank_rule** — without --pad a position nothing covers is '-' outside the query's first and last aligned
+base and 'N' strictly between them -/
+theorem swapGaps_starRow (block : List SamRec) (L : Nat) (hstar : ∀ i b, flatCol block i = some b → b ≠ star) :
+    swapInGapsNs (starRow block L) = specTomaRow block L false := by
+  unfold swapInGapsNs
+  rw [firstLetter_starRow, lastLetter_starRow]
+  rw [specTomaRow_eq]
+  unfold flankCols
+  generalize hF : ((List.range L).find? fun i => isBaseCol (((List.range L).map (flatCol block)).getD i none)) = F
+  generalize hLs : ((List.range L).reverse.find? fun i => isBaseCol (((List.range L).map (flatCol block)).getD i none)) = Ls
+  have hstarLetter : isLetter star = false := by decide
+  cases F with
+  | none =>
+    apply List.ext_getElem
+    · simp [starRow]
+    · intro n h1 h2
+      simp only [starRow, List.getElem_map, List.getElem_zip, List.getElem_range]
+      cases hc : flatCol block n with
+      | none => simp [colByte]
+      | some b => simp [colByte, hstar n b hc]
+  | some f =>
+    cases Ls with
+    | none =>
+      apply List.ext_getElem
+      · simp [starRow]
+      · intro n h1 h2
+        simp only [starRow, List.getElem_map, List.getElem_zip, List.getElem_range]
+        cases hc : flatCol block n with
+        | none => simp [colByte]
+        | some b => simp [colByte, hstar n b hc]
+    | some l =>
+      have hf := List.find?_some hF
+      have hfm := List.mem_range.1 (List.mem_of_find?_eq_some hF)
+      have hl := List.find?_some hLs
+      have hlm := List.mem_range.1 (List.mem_reverse.1 (List.mem_of_find?_eq_some hLs))
+      rw [getD_map_range _ _ _ _ hfm] at hf
+      rw [getD_map_range _ _ _ _ hlm] at hl
+      apply List.ext_getElem
+      · simp [starRow]
+      · intro n h1 h2
+        simp only [starRow, List.getElem_map, List.getElem_zip, List.getElem_range, List.length_map, List.length_range]
+        cases hc : flatCol block n with
+        | some b => simp [colByte, hstar n b hc]
+        | none =>
+          have hnf : n ≠ f := by intro e; subst e; rw [hc] at hf; cases hf
+          have hnl : n ≠ l := by intro e; subst e; rw [hc] at hl; cases hl
+          simp only [colByte, if_true]
+          by_cases h1 : n < f
+          · have : ¬ (f < n ∧ n < l) := by omega
+            simp [h1, this]
+          · by_cases h2 : n > l
+            · have : ¬ (f < n ∧ n < l) := by omega
+              simp [h1, h2, this]
+            · have : f < n ∧ n < l := by omega
+              simp [h1, h2, this]
+
+/-- **C01.single_record_row** — a query aligned by one record: the row written (before windowing) is the
+specification's row, every column of it, for either setting of --pad -/
+theorem single_record_row (rec : SamRec) (L : Nat) (pad : Bool)
+    (hq : qSpan samNoIns rec.cigar ≤ rec.seq.length) (hr : rec.pos + refSpan samNoIns rec.cigar ≤ L)
+    (hns : NoStarBases rec) (s e : Nat) :
+    fastaRecordSeq (walkNoIns rec L) false pad s e = specTomaRow [rec] L pad := by
+  have hrow : walkNoIns rec L = starRow [rec] L := by
+    rw [walk_row rec L hq hr]
+    unfold starRow
+    apply List.map_congr_left
+    intro i _
+    exact covByte_eq_colByte rec i
+  have hstar : ∀ i b, flatCol [rec] i = some b → b ≠ star := by
+    intro i b hb hbs
+    have := (colByte_star_iff rec i hq hns).1 (by rw [hb]; exact hbs)
+    rw [hb] at this; cases this
+  unfold fastaRecordSeq
+  cases pad with
+  | true => simp only [if_true, Bool.false_eq_true, if_false]; rw [hrow]; exact swapNs_starRow [rec] L hstar
+  | false => simp only [Bool.false_eq_true, if_false]; rw [hrow]; exact swapGaps_starRow [rec] L hstar
+
+end Gofasta.Lemmas
